@@ -43,6 +43,21 @@ func Hex64(v uint64) string {
 	return string(b[:])
 }
 
+// Q renders a string as printable ASCII (println renders non-ASCII bytes differently on the
+// two sides, which is a documented difference).
+func Q(s string) string {
+	out := make([]byte, 0, len(s)+2)
+	for i := 0; i < len(s); i++ {
+		c := s[i]
+		if c < 0x21 || c > 0x7e || c == '\\' {
+			out = append(out, '\\', 'x', hexdigits[c>>4], hexdigits[c&15])
+		} else {
+			out = append(out, c)
+		}
+	}
+	return string(out)
+}
+
 func Btoa(b bool) string {
 	if b {
 		return "t"
@@ -368,7 +383,7 @@ func describe(v interface{}) string {
 	case a.MyFloat:
 		return "a.MyFloat:" + g.ShowNum(x)
 	case string:
-		return "string:" + x
+		return "string:" + lib.Q(x)
 	case bool:
 		return "bool:" + lib.Btoa(x)
 	case a.Rec:
